@@ -268,7 +268,7 @@ pub fn check_content(c: &mut Case, name: &str, m: &RefArchive, nvariants: usize)
             return;
         }
     };
-    let img = match c.lib("BinArchive::serialize", || real.serialize()) {
+    let img = match c.lib_stable("BinArchive::serialize", || real.serialize().map_err(|e| e.to_string())) {
         None => return,
         Some(Err(e)) => {
             c.fail("serialize_err", "serialize_err", format!("{}: serialize returned Err({}) for in-domain content {}", name, e, desc()));
